@@ -327,3 +327,62 @@ TWINS["C14"] = [
     TW("pomdp-comment",
        (PPOL, "            s = ns\n            ag = nag\n", "            s = ns  # advance\n            ag = nag\n")),
 ]
+
+# ----------------------------------------------------------------------------------- C10
+TD = A + "tdlearning.py"
+MUTANTS["C10"] = [
+    M("revert-F7-sarsa-second-initialiser", ["SIM-7"],
+      (TD, "            s = mdp.initial_state_dist().sample(rng=rng)\n            a = epsilon_softmax_sample(q[s], self.rand_choose, self.softmax_temp, rng)\n            while",
+       "            s = mdp.initial_state_dist().sample(rng=rng)\n            if s not in q:\n                q[s] = {a: self.initial_q(s, a) for a in mdp.actions(s)}\n            a = epsilon_softmax_sample(q[s], self.rand_choose, self.softmax_temp, rng)\n            while")),
+    M("initialiser-bypasses-absorbing-wrapper", ["SIM-7"],
+      (TD, "initial_avals = lambda s: {a: initial_q(s, a) for a in mdp.actions(s)}", "initial_avals = lambda s: {a: self.initial_q(s, a) for a in mdp.actions(s)}")),
+    M("q-bootstrap-from-current-state", ["ALG-1"],
+      (TD, "q[s][a] += self.step_size*(r + mdp.discount_rate*max(q[ns].values()) - q[s][a])", "q[s][a] += self.step_size*(r + mdp.discount_rate*max(q[s].values()) - q[s][a])")),
+    M("q-discount-on-reward", ["ALG-1"],
+      (TD, "q[s][a] += self.step_size*(r + mdp.discount_rate*max(q[ns].values()) - q[s][a])", "q[s][a] += self.step_size*(mdp.discount_rate*(r + max(q[ns].values())) - q[s][a])")),
+    M("q-no-discount", ["ALG-1"],
+      (TD, "q[s][a] += self.step_size*(r + mdp.discount_rate*max(q[ns].values()) - q[s][a])", "q[s][a] += self.step_size*(r + max(q[ns].values()) - q[s][a])")),
+    M("q-stepsize-only-on-error-part", ["ALG-1"],
+      (TD, "q[s][a] += self.step_size*(r + mdp.discount_rate*max(q[ns].values()) - q[s][a])", "q[s][a] += self.step_size*(r + mdp.discount_rate*max(q[ns].values())) - q[s][a]")),
+    M("q-advance-before-update", ["SIM-4"],
+      (TD, "                r = mdp.reward(s, a, ns)\n                # update\n                q[s][a] += self.step_size*(r + mdp.discount_rate*max(q[ns].values()) - q[s][a])\n                # end of timestep\n                event_listener.end_of_timestep(locals())\n                s = ns",
+       "                r = mdp.reward(s, a, ns)\n                s_prev, s = s, ns\n                # update\n                q[s][a] += self.step_size*(r + mdp.discount_rate*max(q[ns].values()) - q[s][a])\n                # end of timestep\n                event_listener.end_of_timestep(locals())")),
+    M("sarsa-next-action-from-current-row", ["ALG-1"],
+      (TD, "na = epsilon_softmax_sample(q[ns], self.rand_choose, self.softmax_temp, rng)", "na = epsilon_softmax_sample(q[s], self.rand_choose, self.softmax_temp, rng)")),
+    M("sarsa-action-not-carried", ["ALG-1", "SIM-4", "SIM-2"],
+      (TD, "                s, a = ns, na\n", "                s = ns\n                a = epsilon_softmax_sample(q[s], self.rand_choose, self.softmax_temp, rng)\n")),
+    M("esarsa-expectation-at-current-state", ["ALG-1"],
+      (TD, "na_dist = epsilon_softmax_dist(q[ns], self.rand_choose, self.softmax_temp)", "na_dist = epsilon_softmax_dist(q[s], self.rand_choose, self.softmax_temp)")),
+    M("esarsa-greedy-expectation", ["ALG-1"],
+      (TD, "na_dist = epsilon_softmax_dist(q[ns], self.rand_choose, self.softmax_temp)", "na_dist = epsilon_softmax_dist(q[ns], 0.0, self.softmax_temp)")),
+    M("doubleq-same-table-evaluates", ["ALG-1"],
+      (TD, "td_error = r + mdp.discount_rate*q2[ns][argmax(q1[ns], rng).pop()] - q1[s][a]", "td_error = r + mdp.discount_rate*q1[ns][argmax(q1[ns], rng).pop()] - q1[s][a]")),
+    M("doubleq-updates-one-table", ["ALG-1"],
+      (TD, "                    q2[s][a] += self.step_size*td_error", "                    q1[s][a] += self.step_size*td_error")),
+    M("doubleq-returns-sum", ["WIRE-1"],
+      (TD, "                q[s][a] = q1[s][a]*.5 +q2[s][a]*.5", "                q[s][a] = q1[s][a] +q2[s][a]*.5")),
+    M("reward-args", ["SIM-3", "ARG"],
+      (TD, "                r = mdp.reward(s, a, ns)\n                na = epsilon", "                r = mdp.reward(ns, a, s)\n                na = epsilon")),
+    M("policy-greedy-ge", ["POL-1"],
+      (TD, "max_actions = [a for a in action_vals.keys() if action_vals[a] == maxq]", "max_actions = [a for a in action_vals.keys() if action_vals[a] >= maxq - 1e-3]")),
+    M("policy-fallback-action-list", ["POL-1"],
+      (TD, "                max_actions = mdp.actions(s)\n", "                max_actions = mdp.action_list\n")),
+    M("dist-mixture-weights", ["BEH-1"],
+      (TD, "return rand_dist*rand_choose | sm_dist*(1 - rand_choose)", "return rand_dist*rand_choose | sm_dist")),
+    M("absorbing-guard-on-next", ["SIM-1"],
+      (TD, "            s = mdp.initial_state_dist().sample(rng=rng)\n            while not mdp.is_absorbing(s):\n                # select action\n                a = epsilon_softmax_sample(q[s], self.rand_choose, self.softmax_temp, rng)\n                # transition to next state\n                ns = mdp.next_state_dist(s, a).sample(rng=rng)\n                r = mdp.reward(s, a, ns)\n                # update\n                na_dist",
+       "            s = mdp.initial_state_dist().sample(rng=rng)\n            while True:\n                # select action\n                a = epsilon_softmax_sample(q[s], self.rand_choose, self.softmax_temp, rng)\n                # transition to next state\n                ns = mdp.next_state_dist(s, a).sample(rng=rng)\n                r = mdp.reward(s, a, ns)\n                # update\n                na_dist")),
+]
+TWINS["C10"] = [
+    TW("q-convex-form",
+       (TD, "q[s][a] += self.step_size*(r + mdp.discount_rate*max(q[ns].values()) - q[s][a])",
+        "q[s][a] = (1 - self.step_size)*q[s][a] + self.step_size*(r + mdp.discount_rate*max(q[ns].values()))")),
+    TW("q-td-error-variable",
+       (TD, "q[s][a] += self.step_size*(r + mdp.discount_rate*max(q[ns].values()) - q[s][a])",
+        "td_error = r + mdp.discount_rate*max(q[ns].values()) - q[s][a]\n                q[s][a] += self.step_size*td_error")),
+    TW("sarsa-factor-order",
+       (TD, "q[s][a] += self.step_size*(r + mdp.discount_rate*q[ns][na] - q[s][a])", "q[s][a] += (r - q[s][a] + q[ns][na]*mdp.discount_rate)*self.step_size")),
+    TW("esarsa-inline-td",
+       (TD, "                td_error = r + mdp.discount_rate*sum([q[ns][na]*p for na, p in na_dist.items()]) - q[s][a]\n                q[s][a] += self.step_size*td_error",
+        "                q[s][a] += self.step_size*(r + mdp.discount_rate*sum([q[ns][na]*p for na, p in na_dist.items()]) - q[s][a])")),
+]
